@@ -111,10 +111,13 @@ def _env(extra=None):
     return env
 
 
-def run_mt(harness, base, cases, verbose=False, timeout=1800):
+def run_mt(harness, base, cases, verbose=False, timeout=1800, env_extra=None):
     """cases: list of 'seed | s0 | s1 ...'. Returns (outcome lines, stderr)"""
     data = "\n".join(cases) + "\n"
-    env = _env({"HX_VERBOSE": "1"} if verbose else None)
+    ex = dict(env_extra or {})
+    if verbose:
+        ex["HX_VERBOSE"] = "1"
+    env = _env(ex or None)
     r = subprocess.run([harness, "mt", base], input=data.encode(), stdout=subprocess.PIPE,
                        stderr=subprocess.PIPE, env=env, timeout=timeout)
     out = r.stdout.decode("latin1").split("\n")
